@@ -211,6 +211,8 @@ class LocalOps:
         )
 
     def cancel_job(self, job_id):
+        if str(job_id) not in self._client.status():
+            raise BackendError(f"Task {job_id} is not known to the workers.")
         self._client.cancel(job_id)
 
     def close(self):
@@ -276,7 +278,10 @@ class Scheduler:
         return tid
 
     async def cancel_task(self, tid):
-        if self.task_states[tid] in (LocalStatus.SUBMITTED, LocalStatus.RUNNING):
+        # An id this pool never handed out (e.g. tracked from an earlier pool
+        # instance) is ignored. It must not take down the connection handler,
+        # or the remaining cancel requests of that client would be lost.
+        if self.task_states.get(tid) in (LocalStatus.SUBMITTED, LocalStatus.RUNNING):
             worker_task = self.tasks[tid]
             worker_task.cancel()
             self.task_states[tid] = LocalStatus.CANCELLED
